@@ -46,6 +46,13 @@ def generate(rng, tier):
     g["tchans"] = max(g["tchans"], 3)      # blimpy refuses .h5 files with fewer than 3 integrations or channels
     ops = []
     nops = rng.randint(1, 7)
+    # SCALE: survey-sized frames of more than 2**20 samples whose row and column counts are not powers of two (staged or
+    # block-wise writers and readers that only engage beyond some size, and their remainder handling)
+    huge = rng.random() < (0.04 if tier == "quick" else 0.1)
+    if huge:
+        g["tchans"], g["fchans"] = rng.choice([(301, 4096), (17, 131072), (611, 4096), (20, 65536), (33, 40000), (6, 262144)])
+        spec["route"] = rng.choice(["sizes", "data", "from_data"])
+        nops = rng.randint(0, 2)
     for _ in range(nops):
         r = rng.random()
         fr = rng.randrange(0, 8)
@@ -92,7 +99,7 @@ def generate(rng, tier):
                 "load_form": rng.choice(["str", "str", "path", "object", "from_waterfall"])})
     # sibling frames alive in the same session (own geometry, own source name): their operations interleave
     siblings = []
-    for k in range(rng.choice([0, 0, 1, 1, 2])):
+    for k in range(rng.choice([0, 0, 1, 1, 2]) if not huge else 0):
         sp = F.gen_frame_spec(rng, routes=["sizes", "shape", "data", "units", "load_fil"])
         sp["geom"]["fchans"] = max(sp["geom"]["fchans"], 8)
         sp["geom"]["tchans"] = max(sp["geom"]["tchans"], 3)
